@@ -408,6 +408,38 @@ theorem coeffUnit_spec (ux uy : PyVal α) (hx : ux.WF) (hy : uy.WF) (deg i : ℕ
   · simp [coeffUnit, PyVal.mul_si, PyVal.pow_si]
   · simp [coeffUnit, PyVal.mul_dims hy (PyVal.pow_wf hx _), PyVal.pow_dims]
 
+/-- a plain numeric `np.ndarray` is converted exactly like the list of its elements (the shortcut `return value` is taken only
+    when the target is dimensionless with SI value exactly 1, where the element-wise result is the array itself) -/
+theorem toUnitless_ndarray (xs : List α) (u : PyVal α) (hu : u.WF) :
+    toUnitless (.ndarray xs) u = (toUnitlessFlat (xs.map .num) u).map (fun ys => Res.list (ys.map .num)) := by
+  rw [toUnitless]
+  by_cases hun : isUnitlessScalar u = true
+  · -- the target is dimensionless: rescale succeeds, and `== 1` tests the SI value
+    have hd : u.dims = Dims.zero := by
+      cases u <;> simp_all [isUnitlessScalar, PyVal.dims, PyVal.asQuantity, Unit.one]
+    have hflat : toUnitlessFlat (xs.map .num) u = .ok ((xs.map PyVal.num).map fun a => a.si / u.si) :=
+      (toUnitlessFlat_spec (xs.map .num) u (by intro a ha; obtain ⟨x, _, rfl⟩ := List.mem_map.mp ha; trivial) hu).1
+        (by intro a ha; obtain ⟨x, _, rfl⟩ := List.mem_map.mp ha; simp [hd])
+    simp only [hun, if_true, hflat, Except.map]
+    have hone : u.si = 1 → (Except.ok (Res.list (xs.map Res.num)) : Except Err (Res α)) =
+        .ok (Res.list (((xs.map PyVal.num).map fun a => a.si / u.si).map Res.num)) := by
+      intro h1; simp [h1, List.map_map, Function.comp]
+    cases u with
+    | num y =>
+      simp only [rescale, PyVal.eqOne, Quantity.dimensionless, decide_true, if_true, Nat.cast_one, decide_eq_true_eq]
+      split_ifs with hy
+      · exact hone (by simpa using hy)
+      · rfl
+    | qty q =>
+      have hq : q.unit.dims = (Unit.one : Unit α).dims := hd
+      simp only [rescale, quantitiesRescale, Quantity.dimensionless, Nat.cast_one, ne_eq, not_true_eq_false, if_false, hq,
+        if_true, Except.map, PyVal.eqOne, decide_eq_true_eq]
+      split_ifs with hy
+      · exact hone (by simpa [Unit.one] using hy)
+      · rfl
+  · simp only [hun]
+    cases toUnitlessFlat (xs.map PyVal.num) u <;> rfl
+
 /-! ### concatenate -/
 
 theorem concatGo_spec (u : PyVal α) (hu : u.WF) (arrays : List (List (PyVal α))) (hw : ∀ arr ∈ arrays, ∀ a ∈ arr, a.WF) :
@@ -561,7 +593,7 @@ theorem polyval_scalar_spec (p0 : PyVal α) (ps : List (PyVal α)) (x : PyVal α
   have ha := unitOfScalar_si_ne hx
   have hb := unitOfScalar_si_ne hplw
   have hlast : (p0 :: ps).getLast? = some ((p0 :: ps).getLast (by simp)) := by
-    simp [List.getLast?_eq_getLast]
+    simp [List.getLast?_eq_some_getLast]
   have hlen : (p0 :: ps).length - 1 = ps.length := by simp
   obtain ⟨c1, c2⟩ := polyvalCoeffs_spec (unitOfScalar x) (unitOfScalar ((p0 :: ps).getLast (by simp))) hux huy ps.length 0 (p0 :: ps) hp
   have hxs : toUnitlessScalar x (unitOfScalar x) = .ok (x.si / (unitOfScalar x).si) :=
